@@ -85,6 +85,9 @@ const (
 	c09ClassCrashAtomic = "C09-crash-inside-apply-state-not-replay-of-resume-index"
 	c09ClassInstallDiff = "C09-snapshot-install-state-differs-from-source"
 	c09ClassStaleSnap   = "C09-late-local-snapshot-rewinds-applied-index"
+	c09ClassInstallLie  = "C09-snapshot-install-reported-success-but-state-not-installed"
+	c09ClassInstallHalf = "C09-failed-snapshot-install-changed-the-replica"
+	c09ClassInstallGone = "C09-snapshot-file-vanished-before-open-installs-empty-database"
 )
 
 // ---------------------------------------------------------------------------
@@ -740,6 +743,9 @@ type c09Event struct {
 	Ord  int    `json:"before_entry"` // executed when exactly Ord entries have been delivered
 	Kind string `json:"kind"`         // restart | crash | install | localsnap | localsnap-late
 	Back int    `json:"snapshot_index_fixed_entries_ago,omitempty"`
+	// install events: the storage fault the first installation attempt runs into
+	// (write | close | open-dir | open-missing | restore-source-missing | restore-target-dir)
+	Fault string `json:"install_fault,omitempty"`
 }
 
 type c09Reset struct {
@@ -1067,29 +1073,181 @@ func c09Drive(env *c09Env, l *c09Log, plan c09Plan, rng *kit.Rand, snaps map[int
 					run.Stats["install_skipped"]++
 					continue
 				}
-				sink, err := store.Create(1, sp.meta.Index, sp.meta.Term, sp.meta.Configuration, sp.meta.ConfigurationIndex, nil)
-				if err != nil {
-					fail(c09ClassSnapshot, "create sink: "+err.Error(), nil)
-					return run
+				// The installation path raft takes on a follower: Create a sink on the replica's
+				// snapshot store, stream the sender's state into it, Close, Open, FSM.Restore. With
+				// ev.Fault the first attempt meets a storage fault at one step (things renamed away
+				// or replaced by a directory; the process runs as root, permissions would not bite).
+				// raft takes the replica to be at the snapshot's position exactly when every step
+				// returned nil; otherwise it stays where it was and the installation is retried.
+				attempt := func(fault string) (stage string, err error, undo func()) {
+					undo = func() {}
+					snapDir := filepath.Join(dir, snapPath)
+					sink, err := store.Create(1, sp.meta.Index, sp.meta.Term, sp.meta.Configuration, sp.meta.ConfigurationIndex, nil)
+					if err != nil {
+						return "create sink", err, undo
+					}
+					if fault == "write" {
+						// the directory snapshots are received into is not a directory any more
+						os.Rename(snapDir, snapDir+".away")
+						os.WriteFile(snapDir, []byte("x"), 0o600)
+						undo = func() { os.Remove(snapDir); os.Rename(snapDir+".away", snapDir) }
+					}
+					if _, err := io.Copy(sink, bytes.NewReader(sp.data)); err != nil {
+						sink.Cancel()
+						return "write sink", err, undo
+					}
+					if fault == "close" {
+						// the place the finished snapshot is moved to is taken by a non-empty directory
+						target := strings.TrimSuffix(sink.(*BoltSnapshotSink).dir, tmpSuffix)
+						os.MkdirAll(filepath.Join(target, "occupied"), 0o700)
+						undo = func() { os.RemoveAll(target) }
+					}
+					if err := sink.Close(); err != nil {
+						return "close sink", err, undo
+					}
+					dbf := filepath.Join(snapDir, sink.ID(), databaseFilename)
+					vanish := func() {
+						os.Rename(dbf, dbf+".lost")
+						undo = func() { os.RemoveAll(dbf); os.Rename(dbf+".lost", dbf) }
+					}
+					switch fault {
+					case "open-missing":
+						vanish() // the received database file is gone when the snapshot is opened
+					case "open-dir":
+						vanish()
+						os.MkdirAll(filepath.Join(dbf, "x"), 0o700)
+					}
+					_, rc, err := store.Open(sink.ID())
+					if err != nil {
+						return "open snapshot", err, undo
+					}
+					defer rc.Close()
+					switch fault {
+					case "restore-source-missing":
+						vanish() // the received database file cannot be moved into place: it is gone
+					case "restore-target-dir":
+						// ... or the place it is moved to is taken by a non-empty directory (the state
+						// machine keeps using its open file until Restore closes it)
+						t := filepath.Join(dir, databaseFilename)
+						os.Rename(t, t+".real")
+						os.MkdirAll(filepath.Join(t, "x"), 0o700)
+						undo = func() { os.RemoveAll(t); os.Rename(t+".real", t) }
+					}
+					if err := fsm.Restore(rc); err != nil {
+						return "restore", err, undo
+					}
+					return "", nil, undo
 				}
-				if _, err := io.Copy(sink, bytes.NewReader(sp.data)); err != nil {
-					sink.Cancel()
-					fail(c09ClassSnapshot, "write sink: "+err.Error(), nil)
-					return run
-				}
-				if err := sink.Close(); err != nil {
-					fail(c09ClassSnapshot, "close sink: "+err.Error(), nil)
-					return run
-				}
-				_, rc, err := store.Open(sink.ID())
-				if err != nil {
-					fail(c09ClassSnapshot, "open snapshot: "+err.Error(), nil)
-					return run
-				}
-				err = fsm.Restore(rc)
-				rc.Close()
-				if err != nil {
-					fail(c09ClassSnapshot, "restore: "+err.Error(), nil)
+				if ev.Fault != "" {
+					run.Stats["install_faults_"+ev.Fault]++
+					oldIdx, oldTerm := expectLatest, expectTerm
+					died := false
+					stage, ferr, undo := func() (stage string, err error, undo func()) {
+						defer func() {
+							// a panic on the installation path is the replica's process dying there
+							if p := recover(); p != nil {
+								died = true
+								stage, err = "process died", fmt.Errorf("panic: %v", p)
+							}
+						}()
+						return attempt(ev.Fault)
+					}()
+					if undo == nil {
+						// the fault-specific undo is lost with the panic: put everything back by hand
+						undo = func() {
+							sd := filepath.Join(dir, snapPath)
+							if st, err := os.Stat(sd + ".away"); err == nil && st.IsDir() {
+								os.Remove(sd)
+								os.Rename(sd+".away", sd)
+							}
+							if m, _ := filepath.Glob(filepath.Join(sd, "*", databaseFilename+".lost")); len(m) > 0 {
+								for _, f := range m {
+									t := strings.TrimSuffix(f, ".lost")
+									os.RemoveAll(t)
+									os.Rename(f, t)
+								}
+							}
+							t := filepath.Join(dir, databaseFilename)
+							if _, err := os.Stat(t + ".real"); err == nil {
+								os.RemoveAll(t)
+								os.Rename(t+".real", t)
+							}
+						}
+					}
+					extra := map[string]any{"at_index": sp.meta.Index, "fault": ev.Fault}
+					if ferr == nil {
+						// reported as installed: then it has to BE installed
+						run.Stats["install_faults_survived_attempt_reported_success"]++
+						d, derr := c09Dump(fsm)
+						li, _ := fsm.LatestState()
+						if derr != nil {
+							fail(c09ClassInstallLie, fmt.Sprintf("installation with a storage fault (%s) returned no error at any step, but the replica's database cannot even be read: %v", ev.Fault, derr), extra)
+							return run
+						}
+						if diff := c09DiffState(d, l.Hist[sp.meta.Index]); diff != "" || li.Index != sp.meta.Index {
+							if len(diff) > 1200 {
+								diff = diff[:1200] + " ..."
+							}
+							class := c09ClassInstallDiff
+							what := ""
+							switch {
+							case c09DiffState(d, l.Hist[modelIdx]) == "" && li.Index == oldIdx:
+								class = c09ClassInstallLie
+								what = fmt.Sprintf("the replica still holds exactly its old bucket (replay of the log up to %d) and reports its old index %d", modelIdx, oldIdx)
+							case ev.Fault == "open-missing" && len(d) == 0:
+								class = c09ClassInstallGone
+								what = fmt.Sprintf("BoltSnapshotStore.Open created an empty database in place of the missing file and reported a snapshot, FSM.Restore installed it: the bucket is empty, the replica reports index %d", li.Index)
+							default:
+								what = fmt.Sprintf("the replica reports index %d", li.Index)
+							}
+							undo()
+							fail(class, fmt.Sprintf("a snapshot of the source replica at index %d was received while a storage fault hit the installation (%s); every step (sink Write/Close, Open, FSM.Restore) returned nil, so raft takes this replica to be at index %d and only feeds it later entries, but %s; bucket vs the source's at %d: %s", sp.meta.Index, ev.Fault, sp.meta.Index, what, sp.meta.Index, diff), extra)
+							return run
+						}
+						undo()
+					} else {
+						run.Stats["install_faults_reported_error_at_"+strings.ReplaceAll(stage, " ", "_")]++
+						extra["reported_error"] = fmt.Sprintf("%s: %v", stage, ferr)
+						undo()
+						// the replica must be exactly where it was; if the state machine lost its database
+						// handle on the way, the process is restarted first (raft would not get further either)
+						if _, derr := c09Dump(fsm); derr != nil || died {
+							if died {
+								run.Stats["install_faults_process_died_panic"]++
+							} else {
+								run.Stats["install_faults_left_state_machine_without_database"]++
+							}
+							fsm.Close()
+							nf, err := NewFSM(dir, "verif", env.logger)
+							if err != nil {
+								fsm = nil
+								fail(c09ClassInstallHalf, fmt.Sprintf("installation with a storage fault (%s) failed as reported (%s: %v), the fault was undone, but the replica's database does not open any more: %v", ev.Fault, stage, ferr, err), extra)
+								return run
+							}
+							fsm = nf
+							if store, err = NewBoltSnapshotStore(dir, env.logger, fsm); err != nil {
+								fail(c09ClassHarnessSelf, err.Error(), nil)
+								return run
+							}
+							known = map[uint64]struct{}{}
+							run.Resets = append(run.Resets, c09Reset{Ord: pos, Kind: "restart-after-failed-install", P: oldIdx})
+						}
+						d, derr := c09Dump(fsm)
+						li, _ := fsm.LatestState()
+						if derr != nil || li.Index != oldIdx || li.Term != oldTerm || c09DiffState(d, l.Hist[modelIdx]) != "" {
+							fail(c09ClassInstallHalf, fmt.Sprintf("installation with a storage fault (%s) failed as reported (%s: %v); the replica must then be exactly where it was (index %d, replay of the log up to %d), but it reports index %d term %d and its bucket differs: %s (%v)", ev.Fault, stage, ferr, oldIdx, modelIdx, li.Index, li.Term, c09DiffState(d, l.Hist[modelIdx]), derr), extra)
+							return run
+						}
+						run.Stats["install_faults_replica_unchanged_after_reported_error"]++
+						// raft retries; the fault is gone
+						if stage, err, _ := attempt(""); err != nil {
+							fail(c09ClassSnapshot, fmt.Sprintf("the installation retried after a reported failure (%s, fault %s) fails: %s: %v", extra["reported_error"], ev.Fault, stage, err), extra)
+							return run
+						}
+						run.Stats["install_faults_retry_succeeded"]++
+					}
+				} else if stage, err, _ := attempt(""); err != nil {
+					fail(c09ClassSnapshot, stage+": "+err.Error(), nil)
 					return run
 				}
 				run.Resets = append(run.Resets, c09Reset{Ord: pos, Kind: "install", P: sp.meta.Index, Follow: modelIdx})
@@ -1823,6 +1981,7 @@ func c09Plans(rng *kit.Rand, l *c09Log, nrep int) []c09Plan {
 		{Name: "crash-in-apply-post", MaxBatch: 8, Events: []c09Event{{Ord: inWindow() - 1, Kind: "crashin-post"}}},
 		{Name: "crash-in-apply-pre", MaxBatch: 8, Events: []c09Event{{Ord: inWindow() - 1, Kind: "crashin-pre"}}},
 		{Name: "late-localsnap", MaxBatch: 6, Events: []c09Event{{Ord: inWindow(), Kind: "localsnap-late", Back: 1 + rng.Intn(4)}}},
+		{Name: "install-lagging-fault", MaxBatch: 5, Events: []c09Event{{Ord: 0, Kind: "lag"}, {Ord: inWindow(), Kind: "install", Fault: kit.Pick(rng, c09InstallFaults)}}},
 		{Name: "restart-twice", MaxBatch: 8, Events: []c09Event{{Ord: ord(), Kind: "restart"}, {Ord: inWindow(), Kind: "restart"}}},
 		{Name: "install-lagging", MaxBatch: 4, Events: []c09Event{{Ord: 0, Kind: "lag"}, {Ord: inWindow(), Kind: "install"}}},
 		{Name: "localsnap-restart", MaxBatch: 5, Events: []c09Event{{Ord: ord(), Kind: "localsnap"}, {Ord: inWindow(), Kind: "restart"}}},
@@ -2114,13 +2273,14 @@ func c09BigCases(r *kit.Result, env *c09Env, seed int64) {
 			r.Inconc("%s: the reference replica produced no snapshot", c.id)
 		}
 		plans := []c09Plan{{Name: "install-lagging-large-store", Cuts: cuts, MaxBatch: 1, Stream: 1, Events: []c09Event{{Ord: snapOrd, Kind: "install"}}}}
+		plans = append(plans, c09Plan{Name: "install-lagging-large-store-fault", Cuts: cuts, MaxBatch: 1, Stream: 3, Events: []c09Event{{Ord: snapOrd, Kind: "install", Fault: []string{"restore-source-missing", "close", "restore-target-dir", "write", "open-dir", "restore-source-missing"}[i%6]}}})
 		if kit.Tier() == "thorough" {
 			plans = append(plans, c09Plan{Name: "install-fresh-large-store", Cuts: cuts, MaxBatch: 1, Stream: 2, Events: []c09Event{{Ord: snapOrd, Kind: "install"}}})
 		}
 		for k, p := range plans {
 			prng := kit.NewRand(seed, uint64(i)<<8|0xb1+uint64(k))
 			var run *c09Run
-			if k == 0 {
+			if strings.Contains(p.Name, "lagging") {
 				run = c09DriveLagging(env, l, p, prng, snaps, 2)
 			} else {
 				run = c09Drive(env, l, p, prng, snaps, nil)
@@ -2144,11 +2304,11 @@ func c09Btoi(b bool) int {
 
 func TestVerif_C09_Logs(t *testing.T) {
 	seed := kit.Seed(9)
-	r := kit.NewResult(t, "c09-logs", seed, "a case is one generated leader-consistent raft log (plain puts/deletes, transactions with honest read/list verification entries for a start index anywhere in the past, shipped LowestActiveIndex, chunked and unchunked encodings interleaved, term changes, configuration entries, index gaps) applied to a reference replica (one entry per batch) and R-1 further replicas differing in batching, restart, crash, local snapshot (also one that raft persists a few entries late) and snapshot-install position, plus hand-built logs whose store is larger than 32 MiB (thorough: also > 64 MiB, > 96 MiB and > 50000 keys) where followers are initialised from a snapshot streamed through the snapshot store / sink / installer and must hold the source's bucket byte for byte; non-trivial = the log contains both a transaction ground truth commits and one it rejects; distinct by log digest")
+	r := kit.NewResult(t, "c09-logs", seed, "a case is one generated leader-consistent raft log (plain puts/deletes, transactions with honest read/list verification entries for a start index anywhere in the past, shipped LowestActiveIndex, chunked and unchunked encodings interleaved, term changes, configuration entries, index gaps) applied to a reference replica (one entry per batch) and R-1 further replicas differing in batching, restart, crash, local snapshot (also one that raft persists a few entries late) and snapshot-install position (also with a storage fault at one step of the first installation attempt: an attempt that reports an error must leave the replica where it was and the retry must succeed, an attempt that reports success must have installed the source's bucket), plus hand-built logs whose store is larger than 32 MiB (thorough: also > 64 MiB, > 96 MiB and > 50000 keys) where followers are initialised from a snapshot streamed through the snapshot store / sink / installer and must hold the source's bucket byte for byte; non-trivial = the log contains both a transaction ground truth commits and one it rejects; distinct by log digest")
 	defer r.Write(t)
 	env := c09NewEnv(t, "0")
 	ncases := kit.N(1000, 50000)
-	nrep := kit.N(9, 13)
+	nrep := kit.N(10, 14)
 	shard, shards := kit.Shard()
 	sampled := 0
 	for i := 0; i < ncases; i++ {
@@ -2180,6 +2340,8 @@ func TestVerif_C09_Logs(t *testing.T) {
 		}
 	}
 	c09BigCases(r, env, seed)
+	r.Require("install_faults_replica_unchanged_after_reported_error", int64(kit.N(600, 24000)/shards))
+	r.Require("install_faults_retry_succeeded", int64(kit.N(600, 24000)/shards))
 	r.Require("large_store_logs", 1)
 	r.Require("installs_compared_with_source_bucket", 100)
 	if shards == 1 {
@@ -2270,6 +2432,9 @@ func TestVerif_C09_Small(t *testing.T) {
 				c09Plan{Name: fmt.Sprintf("install@%d-fresh", p), Cuts: []int{p, n}, Events: []c09Event{{Ord: p, Kind: "install"}}},
 				c09Plan{Name: fmt.Sprintf("install@%d-lagging", p), Cuts: allcuts, Events: []c09Event{{Ord: 0, Kind: "lag"}, {Ord: p, Kind: "install"}}},
 			)
+			ft := c09InstallFaults[(p+i)%len(c09InstallFaults)]
+			// (a follower that lags: only then does "nothing was installed" show)
+			plans = append(plans, c09Plan{Name: fmt.Sprintf("install@%d-lagging-fault-%s", p, ft), Cuts: allcuts, Events: []c09Event{{Ord: 0, Kind: "lag"}, {Ord: p, Kind: "install", Fault: ft}}})
 			if p >= 2 {
 				plans = append(plans, c09Plan{Name: fmt.Sprintf("late-localsnap@%d", p), Cuts: allcuts, Events: []c09Event{{Ord: p, Kind: "localsnap-late", Back: 1 + p%2}}})
 			}
@@ -2895,6 +3060,18 @@ func TestVerif_C09_LeaderLog(t *testing.T) {
 			}
 			plans = append(plans, c09Plan{Name: fmt.Sprintf("late-localsnap@%d", pos), MaxBatch: 1 + rng.Intn(8), Events: []c09Event{{Ord: pos, Kind: "localsnap-late", Back: 1 + rng.Intn(3)}}})
 		}
+		for k, ft := range c09InstallFaults {
+			pos := 1 + rng.Intn(n-1)
+			if len(cands) > 0 {
+				pos = kit.Pick(rng, cands)
+			}
+			p := c09Plan{Name: fmt.Sprintf("install@%d-fault-%s", pos, ft), MaxBatch: 1 + rng.Intn(16), Events: []c09Event{{Ord: pos, Kind: "install", Fault: ft}}}
+			if k%3 != 2 {
+				p.Name += "-lagging"
+				p.Events = append([]c09Event{{Ord: 0, Kind: "lag"}}, p.Events...)
+			}
+			plans = append(plans, p)
+		}
 		for k := range plans {
 			plans[k].Stream = uint64(k%250 + 1)
 		}
@@ -2962,6 +3139,9 @@ const (
 	c09ClassLeaderAck        = "C09-leader-ack-differs-from-log"
 	c09ClassROSnap           = "C09-leader-readonly-txn-not-a-snapshot"
 )
+
+// storage faults an installation attempt can meet (see the install event of c09Drive)
+var c09InstallFaults = []string{"write", "close", "open-dir", "open-missing", "restore-source-missing", "restore-target-dir"}
 
 var (
 	c09SzSizes  = []string{"small", "below-chunk", "above-chunk", "multi-chunk", "near-max"}
@@ -3648,6 +3828,18 @@ func c09SizesPlans(r *kit.Result, rng *kit.Rand, l *c09Log, nres int) []c09Plan 
 			pos = kit.Pick(rng, cs)
 		}
 		plans = append(plans, c09Plan{Name: fmt.Sprintf("late-localsnap@%d", pos), MaxBatch: 1 + rng.Intn(8), Events: []c09Event{{Ord: pos, Kind: "localsnap-late", Back: 1 + rng.Intn(3)}}})
+	}
+	for k, ft := range c09InstallFaults {
+		pos := 1 + rng.Intn(n-1)
+		if cs := cands[(k+1)%5]; len(cs) > 0 {
+			pos = kit.Pick(rng, cs)
+		}
+		p := c09Plan{Name: fmt.Sprintf("install@%d-fault-%s", pos, ft), MaxBatch: 1 + rng.Intn(16), Events: []c09Event{{Ord: pos, Kind: "install", Fault: ft}}}
+		if k%3 != 1 {
+			p.Name += "-lagging"
+			p.Events = append([]c09Event{{Ord: 0, Kind: "lag"}}, p.Events...)
+		}
+		plans = append(plans, p)
 	}
 	for k := range plans {
 		plans[k].Stream = uint64(k%250 + 1)
